@@ -87,15 +87,16 @@ def run_seq(ctx, s, mod, dem, bits, cell, via, layout, reset=True, replay=None):
     ctx.cls("layout_" + layout)
     # the same bits as int64: the same symbols
     if layout in ("batch_all", "generated_batch", "cross_instance_forward") and s["scheme"] != "identity":
-        mc.reset(mod, dem)
-        try:
-            yi = mod(torch.from_numpy(bits.astype(np.int64)))
-        except Exception:
-            ctx.cls("int64_bits_rejected")
-            return
-        ctx.ev()
-        ctx.check(tuple(yi.shape) == tuple(y.shape) and bool(torch.allclose(yi.to(torch.complex64) if not yi.is_complex() else yi, y.to(torch.complex64) if not y.is_complex() else y)),
-                  "C05.dtype_independent", cell, {**case, "dtype": "int64"}, None, None, "modulating the same bits given as int64 gives other symbols", chk)
+        for dname, dt in (("int64", torch.int64), ("int32", torch.int32), ("uint8", torch.uint8), ("bool", torch.bool), ("float64", torch.float64)):
+            mc.reset(mod, dem)
+            try:
+                yi = mod(torch.from_numpy(bits.astype(np.int64)).to(dt))
+            except Exception:
+                ctx.cls(dname + "_bits_rejected")
+                continue
+            ctx.ev()
+            ctx.check(tuple(yi.shape) == tuple(y.shape) and bool(torch.allclose(yi.to(torch.complex128), y.to(torch.complex128), atol=1e-6)),
+                      "C05.dtype_independent", cell, {**case, "dtype": dname}, None, None, f"modulating the same bits given as {dname} gives other symbols", chk)
 
 
 def check_case(ctx, cell, case):
